@@ -161,7 +161,7 @@ type smWorld struct {
 	a, b   *smSub
 	active map[string]net.IP // session id -> address, as learned at session_activate
 	sess   map[string]*subscriber.Session
-	terms  map[string]int    // session id -> number of session_terminate events
+	terms  map[string]int // session id -> number of session_terminate events
 	viols  []viol
 }
 
